@@ -39,8 +39,13 @@ impl Property for C01 {
         let out = super::c02::format(case, &case.text);
         let o = CanonOpts { dir: String::new(), mask_refreshable: true };
         let s_in = scan::scan(&case.text);
-        if !feature_on("code_fence_in_body") && canon::has_fence_in_code(&s_in) {
-            return Verdict::Discard("known-domain: code body contains a fence line".into());
+        if let Some(r) = canon::domain_discard(&s_in) {
+            return Verdict::Discard(r);
+        }
+        if case.door == 2 {
+            if let Some(r) = canon::domain_discard(&scan::scan(&case.prev)) {
+                return Verdict::Discard(r);
+            }
         }
         let s_out = scan::scan(&out);
         let st = canon::scan_stats(&s_in, &case.text);
